@@ -219,6 +219,11 @@ func (c *Coordinator) gcTargets(changeAbleShards []*shardInfo, active map[uint64
 				continue
 			}
 
+			// the other copy of this transfer is gone (assignment lost or shard removed): scrape normally again
+			if tar.TargetState == target.StateInTransfer && !scrapedByOther(changeAbleShards, s, h) {
+				tar.TargetState = target.StateNormal
+			}
+
 			if tar.ScrapeTimes < minWaitScrapeTimes {
 				continue
 			}
@@ -250,6 +255,16 @@ func (c *Coordinator) gcTargets(changeAbleShards []*shardInfo, active map[uint64
 			}
 		}
 	}
+}
+
+// scrapedByOther return true if any shard other than s is scraping the target
+func scrapedByOther(shards []*shardInfo, s *shardInfo, hash uint64) bool {
+	for _, other := range shards {
+		if other != s && other.scraping[hash] != nil {
+			return true
+		}
+	}
+	return false
 }
 
 // alleviateShards try remove some targets from shards to alleviate shard burden
